@@ -214,6 +214,7 @@ def run(ctx):
                       "(the raw:* comparisons would not see the modules the trailing passes receive in production)" % stale,
                       found_input=False, key="hook:lower-raw-stale", broken="hook VerifLowerRaw out of date")
     exe = ocamlbuild.build("passmodel")
+    W = max(1, (3 * vcheck.NCPU) // 4)       # worker processes (the generated family triples the interpreter work)
 
     # ---- programs
     rng = ctx.rng.fork("programs")
@@ -226,7 +227,7 @@ def run(ctx):
     hand = [("hand/" + n, s) for n, s in c13progs.PROGRAMS] if only != "gen" else []
     # generated family (lib/c13gen.py): "general" programs for the passes of package ir and the DXIL inlining step,
     # loop-free struct-free ones for all passes including the DXIL optimisation stages
-    n_general, n_loopfree = (0, 0) if only == "hand" else ctx.scale((40, 20), (400, 200))
+    n_general, n_loopfree = (0, 0) if only == "hand" else ctx.scale((36, 18), (400, 200))
     env_n = os.environ.get("VERIF_C13_GEN")
     if env_n:
         n_general, n_loopfree = [int(x) for x in env_n.split(",")]
@@ -250,7 +251,7 @@ def run(ctx):
             return "gen:%s:%s" % (kind, ":".join(x for x in (p, norm(detail) if detail is not None else None) if x))
         return ":".join(x for x in (kind, p, detail if detail is not None else name) if x)
     dbg('passdrive: %d programs' % len(programs))
-    res = L.run_passdrive(tools["passdrive"], programs, passes_of)
+    res = L.run_passdrive(tools["passdrive"], programs, passes_of, workers=W)
     dbg('passdrive done')
 
     stats = {p: {"same": 0, "changed": 0, "errors": 0, "idempotent": 0, "model_equal": 0, "model_out_of_fragment": 0,
@@ -334,7 +335,7 @@ def run(ctx):
     # ---- C tie
     tie_broken = {}
     dbg('model tie: %d jobs' % len(model_jobs))
-    out = L.run_model_parallel(exe, model_jobs)
+    out = L.run_model_parallel(exe, model_jobs, workers=W)
     dbg('model tie done')
     for i, (name, p) in enumerate(model_meta):
         a, b = out[2 * i], out[2 * i + 1]
@@ -349,7 +350,7 @@ def run(ctx):
 
     # ---- hypotheses of the theorems on the modules seen
     hyp = {"modules": 0, "module_wf": 0, "module_known": 0, "calls_in_range": 0, "calls_closed": 0, "no_global_removed": 0}
-    for name, h in zip(hyp_meta, L.run_model_parallel(exe, hyp_jobs)):
+    for name, h in zip(hyp_meta, L.run_model_parallel(exe, hyp_jobs, workers=W)):
         if not h.get("ok"):
             continue
         hyp["modules"] += 1
@@ -399,7 +400,7 @@ def run(ctx):
                     run_jobs.append(L.run_job(after, epi, gl, args, fuel, len_))
                     run_meta.append((name, p, epi, ep["Name"], gl, args, after_names))
     dbg('differential runs: %d jobs' % len(run_jobs))
-    rout = L.run_grouped(exe, run_jobs)
+    rout = L.run_grouped(exe, run_jobs, workers=W)
     dbg('differential runs done')
 
     def judge_after(b, job_after, fuel):
